@@ -284,7 +284,7 @@ impl Prop for ErrorsInHistories {
             6 => Just(Op::Next),
             1 => Just(Op::Owned),
             4 => (0u8..3).prop_map(Op::ReadSet),
-            6 => (0u8..3, 1u8..8).prop_map(|(s, n)| Op::ReadExact(s, n)),
+            6 => (0u8..3, prop_oneof![12 => 1u8..8, 1 => 250u8..=255]).prop_map(|(s, n)| Op::ReadExact(s, n)),
             3 => gen::policy_any().prop_map(Op::SetPolicy),
             1 => any::<u16>().prop_map(Op::Seek),
             1 => any::<u16>().prop_map(Op::SeekSeen),
@@ -389,9 +389,23 @@ pub fn run(tier: Tier) -> i32 {
     let h = ErrorsInHistories;
     run.replays("errors-in-histories", &h);
     run.generated("errors-in-histories", &h, tier.pick(150_000, 3_000_000));
-    run.finish(RULE, &["reference model M_fa/M_fq defines the true line, byte and lengths", "the message format itself is not prescribed: only the presence of the values is checked"])
+    let l = super::large::LargeCoords { errors: true };
+    run.replays("large-coordinates", &l);
+    run.generated("large-coordinates", &l, tier.pick(300, 6_000));
+    let b = super::large::Beyond4G { errors: true, variants: if tier == Tier::Quick { &[0] } else { &[0, 0, 1, 2] } };
+    run.replays("beyond-4-gib", &b);
+    let old_limit = std::env::var("VERIF_CASE_TIMEOUT").ok();
+    std::env::set_var("VERIF_CASE_TIMEOUT", "2400");
+    run.generated("beyond-4-gib", &b, tier.pick(2, 8));
+    match old_limit {
+        Some(v) => std::env::set_var("VERIF_CASE_TIMEOUT", v),
+        None => std::env::remove_var("VERIF_CASE_TIMEOUT"),
+    }
+    run.finish(&format!("{} {}", RULE, super::large::RULE_LARGE), &["reference model M_fa/M_fq defines the true line, byte and lengths", "the message format itself is not prescribed: only the presence of the values is checked"])
 }
 
 pub fn replay(run: &mut Run, file: &std::path::Path) -> Option<bool> {
     run.replay_file("error-fields", &ErrorsPinpoint, file, true).or_else(|| run.replay_file("errors-in-histories", &ErrorsInHistories, file, true))
+        .or_else(|| run.replay_file("large-coordinates", &super::large::LargeCoords { errors: true }, file, true))
+        .or_else(|| run.replay_file("beyond-4-gib", &super::large::Beyond4G { errors: true, variants: &[0] }, file, true))
 }
